@@ -363,11 +363,12 @@ def execute_failing(desc, ctx) -> None:
     from srctools.tokenizer import TokenSyntaxError
     w = G.resolve_world(desc['world'])
     lumps, game = G.encode_world(w)
-    view, where = corrupt(desc['kind'], desc['param'], w, lumps, game)
-    if view is None:
-        ctx.label('not_applicable')
-        return
-    ctx.label('corrupt:' + desc['kind'])
+    kind = desc['kind']
+    view, where = corrupt(kind, desc['param'], w, lumps, game)
+    if view is None:        # needs a prop the world does not have: damage the lump header version instead
+        kind = 'sprp_version'
+        view, where = corrupt(kind, desc['param'], w, lumps, game)
+    ctx.label('corrupt:' + kind)
     ctx.label('layout:' + w['layout'])
     blob = G.write_container(G.LAYOUTS[w['layout']], lumps, game, w['revision'], gl_dummy=w['gl_dummy'], gl_pad=w['gl_pad'])
     l4d2 = G.LAYOUTS[w['layout']].l4d2
@@ -394,8 +395,8 @@ def execute_failing(desc, ctx) -> None:
                 raised = type(exc).__name__
         ctx.label('raised:' + (raised or 'nothing'))
         ctx.nontrivial(raised is not None)
-        facts = {'kind': desc['kind'], 'view': view, 'raised': raised, 'layout': w['layout']}
-        tag = f'corrupt {where} ({desc["kind"]}), access={order}, {view} raised {raised}'
+        facts = {'kind': kind, 'view': view, 'raised': raised, 'layout': w['layout']}
+        tag = f'corrupt {where} ({kind}), access={order}, {view} raised {raised}'
         out = os.path.join(td, 'out.bsp')
         save_quiet(bsp, out)
         with open(out, 'rb') as f:
@@ -480,7 +481,7 @@ def strat_synth(tier):
 def strat_failing(tier):
     return st.fixed_dictionaries({
         'world': G.world_strategy(tier),
-        'kind': st.sampled_from(CORRUPTIONS),
+        'kind': st.integers(0, 1000 * len(CORRUPTIONS) - 1).map(lambda k: CORRUPTIONS[k % len(CORRUPTIONS)]),
         'param': st.integers(0, 1000),
         'access': st.lists(st.sampled_from(G.VIEW_ORDER), max_size=4),
     })
@@ -512,8 +513,9 @@ SUBCHECKS = [
     Sub('container', execute_synth, strategy=strat_container, quick=400, thorough=8000, quick_shards=4,
         thorough_shards=16, floor=5, must_hit=_LAYOUT_LABELS + ('access:none', 'lzma', 'lzma:nondefault', 'gl_lzma', 'has:opaque')),
     Sub('failing_access', execute_failing, strategy=strat_failing, quick=400, thorough=8000, quick_shards=4,
-        thorough_shards=16, floor=100, must_hit=_LAYOUT_LABELS + tuple('corrupt:' + k for k in CORRUPTIONS) + (
-            'raised:error', 'raised:ValueError')),
+        thorough_shards=16, floor=100, must_hit=_LAYOUT_LABELS + (
+            'corrupt:sprp_version', 'corrupt:trunc:PLANES', 'corrupt:trunc:TEXINFO', 'corrupt:trunc:LEAFS', 'corrupt:tex_offset',
+            'corrupt:ents_unclosed', 'raised:error', 'raised:ValueError')),
 ]
 
 MATCHERS = {}
